@@ -1,12 +1,18 @@
 Base/Prelude.vo Base/Prelude.glob Base/Prelude.v.beautified Base/Prelude.required_vo: Base/Prelude.v 
 Base/Prelude.vio: Base/Prelude.v 
 Base/Prelude.vos Base/Prelude.vok Base/Prelude.required_vos: Base/Prelude.v 
+Base/Compact.vo Base/Compact.glob Base/Compact.v.beautified Base/Compact.required_vo: Base/Compact.v Base/Prelude.vo
+Base/Compact.vio: Base/Compact.v Base/Prelude.vio
+Base/Compact.vos Base/Compact.vok Base/Compact.required_vos: Base/Compact.v Base/Prelude.vos
 Peers/Peers.vo Peers/Peers.glob Peers/Peers.v.beautified Peers/Peers.required_vo: Peers/Peers.v Base/Prelude.vo
 Peers/Peers.vio: Peers/Peers.v Base/Prelude.vio
 Peers/Peers.vos Peers/Peers.vok Peers/Peers.required_vos: Peers/Peers.v Base/Prelude.vos
 Peers/PeersProofs.vo Peers/PeersProofs.glob Peers/PeersProofs.v.beautified Peers/PeersProofs.required_vo: Peers/PeersProofs.v Base/Prelude.vo Peers/Peers.vo
 Peers/PeersProofs.vio: Peers/PeersProofs.v Base/Prelude.vio Peers/Peers.vio
 Peers/PeersProofs.vos Peers/PeersProofs.vok Peers/PeersProofs.required_vos: Peers/PeersProofs.v Base/Prelude.vos Peers/Peers.vos
+Headers/Tree.vo Headers/Tree.glob Headers/Tree.v.beautified Headers/Tree.required_vo: Headers/Tree.v Base/Prelude.vo Base/Compact.vo
+Headers/Tree.vio: Headers/Tree.v Base/Prelude.vio Base/Compact.vio
+Headers/Tree.vos Headers/Tree.vok Headers/Tree.required_vos: Headers/Tree.v Base/Prelude.vos Base/Compact.vos
 Props/C20.vo Props/C20.glob Props/C20.v.beautified Props/C20.required_vo: Props/C20.v Base/Prelude.vo Peers/Peers.vo Peers/PeersProofs.vo
 Props/C20.vio: Props/C20.v Base/Prelude.vio Peers/Peers.vio Peers/PeersProofs.vio
 Props/C20.vos Props/C20.vok Props/C20.required_vos: Props/C20.v Base/Prelude.vos Peers/Peers.vos Peers/PeersProofs.vos
